@@ -16,10 +16,15 @@ V = "/verif"
 SEEDS = os.path.join(V, "seeded")
 SCRATCH = "/tmp/seedval"
 EXTRA = {  # other checks that are expected to see the same change
+    "C07-or-tail-raw-copy": ["C09"], "C15-pack-tail": ["C07"], "C19-dxdy-before-clamp": ["C03"], "C17-pm1-offset-turns": ["C11"], "C01-neg-lon-turns": ["C02", "C05"],
     "C06-pack-tail": ["C07", "C09"], "C07-pack-tail": ["C06", "C09"], "C09-dedup-before-sort": ["C15"],
     "C15-drain-fastpath": ["C09"], "C05-with-radius-dispatch-smallcone": ["C16"], "C16-with-radius-dispatch": ["C05"],
     "C01-mask-clamp": ["C02", "C03"], "C02-eps-before-trunc": ["C01"], "C03-npc-sqrt-cancel": ["C01", "C02"],
     "C04-eqr-E-corner": ["C14", "C19"], "C18-h2ij-byte7": ["C03", "C04"], "C10-f32-sqrt": ["C11"], "C08-and-flag-left": ["C07"],
+}
+
+DEMO_ENV = {  # build configuration a demonstration needs
+    "C18-bmi2-pext-mask": {"RUSTFLAGS": "-C target-feature=+bmi2"},
 }
 
 def sh(cmd, cwd=None, env=None, timeout=3600):
@@ -65,11 +70,16 @@ def validate(seed, thorough):
         if os.path.exists(demo):
             os.makedirs(SCRATCH + "/tests", exist_ok=True)
             shutil.copy(demo, SCRATCH + "/tests/seeded_demo.rs")
-            rc3, o3 = sh("cargo test --offline --test seeded_demo 2>&1 | tail -8", cwd=SCRATCH, env=env, timeout=1800)
+            denv = dict(env)
+            denv.update(DEMO_ENV.get(seed, {}))
+            if seed in DEMO_ENV:
+                denv["CARGO_TARGET_DIR"] = SCRATCH + "/target-demo"
+                meta["demo_env"] = DEMO_ENV[seed]
+            rc3, o3 = sh("cargo test --offline --test seeded_demo 2>&1 | tail -8", cwd=SCRATCH, env=denv, timeout=1800)
             s3 = test_summary(o3)
             meta["demo_with_change"] = s3[-1] if s3 else o3[-300:]
             sh("git checkout -- src", cwd=SCRATCH)
-            rc4, o4 = sh("cargo test --offline --test seeded_demo 2>&1 | tail -8", cwd=SCRATCH, env=env, timeout=1800)
+            rc4, o4 = sh("cargo test --offline --test seeded_demo 2>&1 | tail -8", cwd=SCRATCH, env=denv, timeout=1800)
             s4 = test_summary(o4)
             meta["demo_without_change"] = s4[-1] if s4 else o4[-300:]
             meta["demo_discriminates"] = bool(s3 and s4 and s3[-1][0] == "FAILED" and s4[-1][0] == "ok")
